@@ -138,7 +138,7 @@ pub fn pick_pay(s: &mut Stream, cfg: &GenCfg) -> Pay {
             _ => Pay::Scaled(1e3),
         };
     }
-    match s.weighted(&[4, 3, 5, 1, 1, 1, 1, 1]) {
+    match s.weighted(&[8, 6, 10, 2, 2, 2, 2, 2, 1, 1]) {
         0 => Pay::SmallInt,
         1 => Pay::Dyadic,
         2 => Pay::Real,
@@ -146,7 +146,9 @@ pub fn pick_pay(s: &mut Stream, cfg: &GenCfg) -> Pay {
         4 => Pay::Scaled(1e6),
         5 => Pay::Scaled(37.5),
         6 => Pay::Zeroish,
-        _ => Pay::AllEqual,
+        7 => Pay::AllEqual,
+        8 => Pay::Scaled(1e-20),
+        _ => Pay::Scaled(1e15),
     }
 }
 
@@ -173,6 +175,8 @@ pub enum Wt {
     Dyadic,
     Real,
     Extreme,
+    /// ratios far beyond the precision of a double, subnormal weights (sums never overflow)
+    Wild,
 }
 
 pub fn pick_wt(s: &mut Stream, cfg: &GenCfg) -> Wt {
@@ -185,11 +189,12 @@ pub fn pick_wt(s: &mut Stream, cfg: &GenCfg) -> Wt {
     if cfg.generic {
         return Wt::Real;
     }
-    match s.weighted(&[4, 2, 4, 1]) {
+    match s.weighted(&[8, 4, 8, 2, 1]) {
         0 => Wt::Int,
         1 => Wt::Dyadic,
         2 => Wt::Real,
-        _ => Wt::Extreme,
+        3 => Wt::Extreme,
+        _ => Wt::Wild,
     }
 }
 
@@ -223,6 +228,13 @@ pub fn weights(s: &mut Stream, wt: Wt, n: usize) -> Vec<f64> {
             }
         }
         Wt::Real => (0..n).map(|_| 0.05 + s.unit_generic()).collect(),
+        Wt::Wild => {
+            // absolute magnitudes; the largest is 1e200, so a sum of a few cannot overflow, and
+            // the smallest are subnormal
+            const A: [f64; 12] = [1.0, 3.0, 1e-310, 3e-310, 1e-300, 1e-30, 1e-18, 1e-17, 1e-15, 1e3, 1e100, 1e200];
+            let base = s.below(12);
+            (0..n).map(|i| if i == 0 || s.bool() { A[base] * [1.0, 3.0][s.below(2)] } else { A[s.below(12)] }).collect()
+        }
         Wt::Extreme => (0..n)
             .map(|i| {
                 if i == 0 {
@@ -359,15 +371,21 @@ impl ObsGen<'_, '_> {
                     Some(id) => *id,
                     None => {
                         let id = self.infoset_acts[p].len();
-                        let arity = match self.s.weighted(&[10, 5, 2, 1]) {
+                        let arity = match self.s.weighted(&[40, 20, 8, 4, 1]) {
                             0 => 2,
                             1 => 3,
                             2 => 4,
-                            _ => 1,
+                            3 => 1,
+                            // rare wide infosets (counts around powers of two)
+                            _ => [5, 8, 9, 10, 16, 17][self.s.below(6)],
                         };
                         let set = self.s.below(3);
                         let off = self.s.below(2);
-                        let acts = (0..arity).map(|a| ACTS[set][a + off].to_string()).collect();
+                        let acts = if arity <= 4 {
+                            (0..arity).map(|a| ACTS[set][a + off].to_string()).collect()
+                        } else {
+                            (0..arity).map(|a| format!("m{}", a)).collect()
+                        };
                         self.infoset_acts[p].push(acts);
                         self.infoset_ids[p].insert(key, id);
                         id
@@ -394,8 +412,9 @@ impl ObsGen<'_, '_> {
 
 fn gen_matrix(s: &mut Stream, cfg: &GenCfg, degenerate: bool) -> T {
     let pay = pick_pay(s, cfg);
-    let n = 2 + s.below(3);
-    let m = 2 + s.below(3);
+    let size = |s: &mut Stream| if s.chance(24) { [5, 8, 9, 10, 12, 16, 17][s.below(7)] } else { 2 + s.below(3) };
+    let n = size(s);
+    let m = size(s);
     let mut mat: Vec<Vec<f64>> = (0..n).map(|_| (0..m).map(|_| payoff(s, pay)).collect()).collect();
     if degenerate {
         // duplicate one row, dominate another
@@ -431,7 +450,12 @@ fn gen_matrix(s: &mut Stream, cfg: &GenCfg, degenerate: bool) -> T {
 
 fn gen_chain(s: &mut Stream, cfg: &GenCfg) -> T {
     let pay = pick_pay(s, cfg);
-    let depth = 1 + s.below(if cfg.max_nodes >= 400 { 200 } else { 16 });
+    // long chains give a player hundreds of infosets (block and chunk sizes of parallel code)
+    let depth = if cfg.max_nodes >= 400 && s.chance(64) {
+        200 + ((s.u16() as usize * 500) >> 16)
+    } else {
+        1 + s.below(if cfg.max_nodes >= 400 { 200 } else { 16 })
+    };
     let mut node = T::Term(payoff(s, pay));
     for d in (0..depth).rev() {
         let p = d % 2;
@@ -452,9 +476,18 @@ fn gen_chain(s: &mut Stream, cfg: &GenCfg) -> T {
 fn gen_shared_wide(s: &mut Stream, cfg: &GenCfg) -> T {
     let pay = pick_pay(s, cfg);
     let wt = pick_wt(s, cfg);
-    let k = 2 + s.below(6);
-    let a = 2 + s.below(3);
+    let mut k = 2 + s.below(6);
+    let mut a = 2 + s.below(3);
     let b = 2 + s.below(2);
+    if cfg.max_nodes >= 400 && s.chance(40) {
+        // many deals (hundreds of infosets for the second mover) or a wide first mover
+        if s.bool() {
+            k = [40, 130, 150, 260, 300][s.below(5)];
+            a = 2;
+        } else {
+            a = [9, 10, 13, 17][s.below(4)];
+        }
+    }
     let p = s.below(2);
     let second_sees = s.bool();
     let w = weights(s, wt, k);
@@ -489,7 +522,8 @@ fn gen_shared_wide(s: &mut Stream, cfg: &GenCfg) -> T {
 fn gen_rare_chance(s: &mut Stream, cfg: &GenCfg) -> T {
     let common = gen_matrix(s, cfg, false);
     // the rare branch has large stakes and its own decisions
-    let pay_scale = [1.0, 128.0, 8192.0][s.below(3)];
+    // (in dyadic mode every derived number has to stay exact, also after a constant is subtracted)
+    let pay_scale = [1.0, 128.0, 8192.0, 1099511627776.0, 1152921504606846976.0][s.below(if cfg.dyadic { 3 } else { 5 })];
     let mut stake = |s: &mut Stream| {
         if cfg.dyadic {
             pay_scale * (s.below(33) as f64 - 16.0) / 8.0
@@ -518,7 +552,7 @@ fn gen_rare_chance(s: &mut Stream, cfg: &GenCfg) -> T {
         let r = [1.0 / 1048576.0, 1.0 / 8192.0, 1.0 / 128.0][s.below(3)];
         (1.0 - r, r)
     } else {
-        (1.0, [1e-6, 1e-4, 1e-2][s.below(3)])
+        (1.0, [1e-6, 1e-4, 1e-2, 1e-12, 1e-17, 1e-18, 1e-30][s.below(7)])
     };
     if s.bool() {
         T::Chance(None, vec![(w_common, common), (w_rare, rare)])
